@@ -539,6 +539,7 @@ type SpecSet struct {
 	Preds     map[string]*Pred
 	Ghosts    map[string]*GhostFunc
 	Axioms    []Clause
+	AxiomPkg  []string
 	Files     []string
 }
 
@@ -756,6 +757,7 @@ func (ss *SpecSet) ParseSpecText(origin, pkgPrefix string, lines []string) error
 				return fmt.Errorf("%s: axiom: %v", origin, err)
 			}
 			ss.Axioms = append(ss.Axioms, cl)
+			ss.AxiomPkg = append(ss.AxiomPkg, pkgPrefix)
 			cur, curLoop = nil, nil
 		default:
 			return fmt.Errorf("%s: unknown directive %q", origin, d)
